@@ -4,4 +4,5 @@ let machines : (string * Base.machine) list = [
   "mutex", Mutex.machine;
   "semaphore", SemaphoreSpec.machine;
   "mpmc", MpmcSpec.machine;
+  "oneshot", Oneshot.machine;
 ]
